@@ -192,10 +192,9 @@ Proof.
            | (if ?b then _ else _) = Some _ => destruct b eqn:?
            | (match ?x with _ => _ end) = Some _ => destruct x eqn:?
            end; try discriminate; frame_tac.
-  (* HSysErr: (misused) ; commit ; send ; commit *)
+  (* HSysErr: (misused) ; send ; commit *)
   eapply frame_trans; [|apply frame_commit].
   eapply frame_trans; [|eapply frame_send_syserr; eassumption].
-  eapply frame_trans; [|apply frame_commit].
   destruct (g_dones c); [apply frame_misused | apply frame_refl].
 Qed.
 
@@ -413,26 +412,24 @@ Proof.
   - (* HSysErr *)
     destruct (w_err c) eqn:We.
     { apply Some_inj in H; subst st'. leaf Hq q. }
+    destruct (conn_send_syserr (if g_dones c then add_misused st id else st) id full) as [st1 ok] eqn:Cs.
     destruct (done_sending (upd_w c false WComplete (rd_err c))) as [c1 chk] eqn:Ds.
-    destruct (conn_send_syserr (commit (if g_dones c then add_misused st id else st) id c1 chk) id full)
-      as [st2 ok] eqn:Cs.
     apply Some_inj in H; subst st'. rewrite mis_commit in Hmis.
     assert (Hd : g_dones c = false).
     { destruct (g_dones c) eqn:Hd; [|reflexivity]. exfalso. apply Hmis.
       unfold conn_send_syserr in Cs.
       destruct (cst _); [destruct full|destruct full|destruct full|]; inversion Cs; subst;
-        cbn [misused enqueue]; rewrite mis_commit; cbn; apply in_or_app; right; left; reflexivity. }
+        cbn [misused enqueue add_misused]; apply in_or_app; right; left; reflexivity. }
     rewrite Hd in Cs. unfold conn_send_syserr in Cs.
-    assert (Cs' : (st2 = commit st id c1 chk /\ ok = false) \/
-                  (st2 = enqueue (commit st id c1 chk) id Err /\ ok = true)).
+    assert (Cs' : (st1 = st /\ ok = false) \/ (st1 = enqueue st id Err /\ ok = true)).
     { destruct (cst _); [destruct full|destruct full|destruct full|]; inversion Cs; subst; auto. }
     clear Cs. destruct Cs' as [[-> ->] | [-> ->]].
-    + eapply hpost_commit; [rewrite sent_commit; exact Hq | destruct q; Rsolve].
+    + eapply hpost_commit; [exact Hq | destruct q; Rsolve].
     + destruct q.
       * eapply hpost_commit;
-          [cbn [sent enqueue]; rewrite sent_commit, proj_snoc_same, wire_run_snoc, Hq; reflexivity | Rsolve].
+          [cbn [sent enqueue]; rewrite proj_snoc_same, wire_run_snoc, Hq; reflexivity | Rsolve].
       * eapply hpost_commit;
-          [cbn [sent enqueue]; rewrite sent_commit, proj_snoc_same, wire_run_snoc, Hq; reflexivity | Rsolve].
+          [cbn [sent enqueue]; rewrite proj_snoc_same, wire_run_snoc, Hq; reflexivity | Rsolve].
       * exfalso. Rsolve.
   - (* HSetAppErr *)
     destruct (w_state c).
@@ -1016,9 +1013,9 @@ Proof.
   - (* past the error check *)
     rewrite mis_commit.
     assert (M : misused s = misused (if g_dones c then add_misused st lid else st)).
-    { unfold conn_send_syserr in Heqp0.
-      destruct (cst _); [destruct full|destruct full|destruct full|]; inversion Heqp0; subst;
-        cbn [misused enqueue]; apply mis_commit. }
+    { unfold conn_send_syserr in Heqp.
+      destruct (cst _); [destruct full|destruct full|destruct full|]; inversion Heqp; subst;
+        cbn [misused enqueue]; reflexivity. }
     rewrite M. destruct (g_dones c); [right; split; reflexivity | left; reflexivity].
 Qed.
 
